@@ -241,7 +241,7 @@ func TestConcurrent(t *testing.T) {
 		Property: "C09", Check: "concurrent",
 		Rule: "8 goroutines released by one gate, each running 4..30 generated ops {start root, start child of an own span, start child of a span shared by all, start WithNewRoot under an own span, end an own span, optional yields} on one provider with the default ID generator and sampler in {always, never, none configured, ratio 0.5, ParentBased(ratio 0.5)}; executed twice per case, judged by a schedule-independent oracle, built with -race; " +
 			"non-trivial = at least two roots and at least one child are started; distinct = distinct case encodings",
-		Quick: 1500, Thorough: 25000,
+		Quick: 500, Thorough: 25000,
 		Gen: genConc, Run: runConc,
 		Repeat: 50,
 	})
